@@ -1080,6 +1080,32 @@ func ruleK3(p *Program, r *Reporter) {
 		}
 		r.Ob(id, "ovsdb.ResultFromError", "type "+typ, t2pos[typ], okk, true, why)
 	}
+	// the type errorFromResult falls back to for names it does not know has its own arm in
+	// ResultFromError (its default arm flattens name and details into one string)
+	defTyp := ""
+	var defPos token.Pos
+	ast.Inspect(fd1.Body, func(n ast.Node) bool {
+		if cl, ok := n.(*ast.CaseClause); ok && cl.List == nil {
+			if t := returnedErrType(info, cl.Body); t != "" {
+				defTyp, defPos = t, cl.Pos()
+			}
+		}
+		return true
+	})
+	if defTyp == "" && len(fd1.Body.List) > 0 {
+		if ret, ok := fd1.Body.List[len(fd1.Body.List)-1].(*ast.ReturnStmt); ok && len(ret.Results) == 1 {
+			if tv, ok := info.Types[ret.Results[0]]; ok {
+				defTyp, defPos = typeStr(tv.Type), ret.Pos()
+			}
+		}
+	}
+	if defTyp != "" {
+		_, has := t2[defTyp]
+		r.Ob(id, "ovsdb.ResultFromError", "generic type "+defTyp, defPos, has, true,
+			ifs(has, defTyp+" (what unknown error names decode to) has its own arm in ResultFromError", defTyp+" (what unknown error names decode to) has no arm in ResultFromError: its default arm writes \"name: details\" into the error member, so a generic error changes on a round trip"))
+	} else {
+		r.Anchor(id, "errorFromResult: fallback error type")
+	}
 	// every constant of the declared group is in table 1
 	for _, f := range pk.Syntax {
 		for _, d := range f.Decls {
